@@ -35,6 +35,10 @@ def judge(mode, s_bytes, parts, want, obs, out, extra):
                 out.violation("C16:components:render", "components do not reproduce the inputs", extra)
         return o["ok"]
     verdicts = {k: p[k]["ok"] for k in PATHS}
+    # the parameter decoders of generated and macro servers (one / optional / list; path-query and header flavours)
+    for k, v in (p.get("decoders") or {}).items():
+        verdicts["decoder:" + k] = v["ok"]
+        p["decoder:" + k] = v
     if mode == "token":
         # the server's credential paths (Authorization: Bearer <s>, Cookie: sid=<s>); absent when <s> cannot be a header value
         verdicts.update({k: p[k]["ok"] for k in ("auth_header", "auth_cookie") if p.get(k) is not None})
